@@ -2217,7 +2217,16 @@
     (def m? (in entry :macro))
     (cond
       s (keep-syntax t (s t))
-      m? (do (setdyn *macro-form* t) (m ;(tuple/slice t 1)))
+      m? (do
+           (setdyn *macro-form* t)
+           (def r (m ;(tuple/slice t 1)))
+           # Like the compiler, attribute code made by the macro to the macro form
+           (if (and (= :tuple (type r))
+                    (= -1 (in (tuple/sourcemap r) 0))
+                    (not= -1 (in (tuple/sourcemap t) 0)))
+             (tuple/setmap (if (= :parens (tuple/type r)) (tuple/slice r) (tuple/brackets ;r))
+                           ;(tuple/sourcemap t))
+             r))
       (keep-syntax! t (map recur t))))
 
   (def ret
